@@ -6,12 +6,14 @@
      Model/LZDecode.v the library's decoder (lz13::decompress_lz, after the repair of F14) and LZ10CompressionFormat::decompress
      Model/LZSpec.v   specification side: the strict stream parser [sparse10] written from the format description.
    [wfb x] says that x is a byte string (every element < 256); lenN x < 2^24 is "shorter than 16 MiB".
-   compress10 is a total function into byte lists: "compression succeeds" is part of the model (the
-   index expressions of lz10.rs are in range by construction, see Model/LZ10.v) and is observed by the
-   correspondence; everything else below is proved. *)
+   "Compression succeeds": Model/LZCompressMachine.v models get_occurrence_length and the loop of lz10.rs at
+   machine level (checked slice indexing, usize arithmetic in a profile, the 17-byte out_buffer array, the
+   shift 1 << (7 - buffered_blocks)); [C08_compress_succeeds] proves that it returns Ok of exactly [compress10 x]
+   for every input shorter than 2^63 bytes in either profile - no index out of range, no underflow - so the
+   list model [compress10] used by the other theorems and by the extracted code is what the code computes. *)
 From Coq Require Import List NArith Bool.
-From Mila Require Import Lib.Bytes Lib.Machine Model.LZCore Model.LZ10 Model.LZSpec Model.LZDecode
-  Proofs.LZCoreProofs Proofs.LZTokens Proofs.LZ10Proofs Proofs.LZDecodeProofs Proofs.LZRoundTrip.
+From Mila Require Import Lib.Bytes Lib.Machine Model.LZCore Model.LZ10 Model.LZSpec Model.LZDecode Model.LZCompressMachine
+  Proofs.LZCoreProofs Proofs.LZTokens Proofs.LZ10Proofs Proofs.LZDecodeProofs Proofs.LZRoundTrip Proofs.LZFormat Proofs.LZCompressMachineProofs.
 Import ListNotations.
 Local Open Scope N_scope.
 
@@ -39,6 +41,17 @@ Proof. exact compress10_round_trip. Qed.
 Theorem C08_layout : forall x, compress10 x = header10 (lenN x) ++ enc_body (senc V10) (tokens 18 x).
 Proof. exact compress10_enc. Qed.
 
+(* compression succeeds: the machine-level model (every index, subtraction and the fixed-size buffer checked)
+   never panics and computes compress10 *)
+Theorem C08_compress_succeeds : forall m x, lenN x < 2 ^ 63 -> compress10_m m x = Ok (compress10 x).
+Proof. exact compress10_m_eq. Qed.
+
+(* the same through the enum CompressionFormat::LZ10 (src/compression_format.rs:20-32): compress is the
+   variant's compress, and decompress (compress x) = x, compress in profile mc, decompress in profile md *)
+Theorem C08_format_entry : forall mc md x, wfb x -> lenN x < 2 ^ 24 ->
+  cf_compress CF10 mc x = Ok (compress10 x) /\ cf_decompress CF10 md (compress10 x) = Ok x.
+Proof. intros mc md x Hw Hn. split; [reflexivity | exact (compress10_round_trip x Hw Hn md)]. Qed.
+
 (* non-vacuity: a 20-byte input with an overlapping reference (a run) and a window reference *)
 Example C08_example :
   let x := [1;2;3;1;2;3;1;2;3;1;2;3;9;9;9;9;9;9;9;9] in
@@ -47,3 +60,8 @@ Example C08_example :
   compress10 x = [0x10; 20; 0; 0; 0x12; 1; 2; 3; 0x60; 2; 9; 9; 0x30; 1] /\
   lz10_decompress Checked (compress10 x) = Ok x.
 Proof. vm_compute. repeat split; try reflexivity. repeat constructor. Qed.
+
+Example C08_example_machine :
+  let x := [1;2;3;1;2;3;1;2;3;1;2;3;9;9;9;9;9;9;9;9] in
+  compress10_m Checked x = Ok [0x10; 20; 0; 0; 0x12; 1; 2; 3; 0x60; 2; 9; 9; 0x30; 1] /\ compress10_m Wrapping [] = Ok [0x10; 0; 0; 0].
+Proof. split; vm_compute; reflexivity. Qed.
